@@ -58,3 +58,33 @@ Proof.
   split; [vm_compute; reflexivity|]. split; [|vm_compute; reflexivity].
   eexists. right. split; [vm_compute; reflexivity|]. eexists. vm_compute. reflexivity.
 Qed.
+
+(* ---------- where the line of "when no other context is using the object" runs (C06/C07, zero pool threads) ----------
+   Caller 0 suspends the queue and awaits the suspension (its poll drains the queue: the suspend job signals, then waits for the resumer:
+   the poll returns Ready and leaves the queue parked in WaitingForWake with the DrainWaker pointing at WakeQueue).  It then schedules a
+   second future and awaits it: poll sees WaitingForWake, stores the task waker and returns Pending (Wait arm).  Caller 1 now resumes
+   (fires event 0): DrainWaker -> WakeQueue -> Idle -> reschedule_queue -> Pending, one entry in the schedule - and no pool thread to take
+   it.  The task is never polled again.  All events are fired, no actor is enabled, caller 0 has not finished. *)
+Fixpoint frun (fuel : nat) (s : state) (acc : list nat) : state * list nat :=
+  match fuel with
+  | 0 => (s, rev acc)
+  | S n => match enabled_list s with
+           | [] => (s, rev acc)
+           | a :: _ => match step G s a with Some s' => frun n s' (a :: acc) | None => (s, rev acc) end
+           end
+  end.
+Definition Pz := [[OSuspend 0 UAwait; OFuture [] UAwait]; [OFire 0]].
+Example C06_zero_pool_needs_side_condition_refuted : ~ C06_zero_pool_any_script.
+Proof.
+  intros H. pose (r := frun 200 (init Pz 0 1) []).
+  assert (Hrun : run G (init Pz 0 1) r.2 = Some r.1) by (vm_compute; reflexivity).
+  assert (Ht : terminal G r.1) by (apply terminal_check; vm_compute; reflexivity).
+  assert (Hf : all_fired r.1) by (apply all_fired_check; vm_compute; reflexivity).
+  specialize (H G gen_all_cond _ [[OFire 0]] 1 r.2 r.1 ltac:(repeat constructor) Hrun Ht Hf).
+  vm_compute in H. discriminate H.
+Qed.
+(* the stuck state: the queue is Pending with one schedule entry, the task is parked on its second future *)
+Example C06_zero_pool_stuck_state :
+  let s := (frun 200 (init Pz 0 1) []).1 in
+  s.(qs) = Pending /\ s.(insched) = 2 /\ stacks s !! 0 = Some [FPark 2; FTop []] /\ length s.(jobs) = 2.
+Proof. vm_compute. done. Qed.
